@@ -439,7 +439,7 @@ func ruleFeeCeiling(c *report.Ctx) {
 		key := sk(f) + "=>checkTxFeeLimit"
 		s := &an.Search{P: p, Fn: f, Cut: cutCalls(p, an.Set(check)), GoalReturn: func(r *ssa.Return, pred *ssa.BasicBlock) bool {
 			// a reply = a return whose response operand is not the nil constant
-			return len(r.Results) > 0 && p.ValState(r.Results[0], r.Block(), pred) != an.IsNil
+			return len(r.Results) > 0 && p.ValState(an.RetOperand(r, 0), r.Block(), pred) != an.IsNil
 		}}
 		if w := s.Run(f.Blocks[0], 0, nil); w != nil {
 			c.Fail(key, "a non-nil response can be returned without the fee-limit check", p.Pos(f.Pos()), w...)
